@@ -11,7 +11,7 @@ use parry2d_f64::shape::ConvexPolygon;
 use parry2d_f64::transformation::convex_hull_idx;
 use serde::Serialize;
 use std::collections::HashSet;
-use std::f64::consts::{FRAC_PI_2, PI};
+use std::f64::consts::{FRAC_PI_2, PI, TAU};
 
 /// Computes the convex hull of a set of 2d points, returning a vector of `usize` elements that
 /// specify the indices of the points in the original set which make up the hull. The indices are
@@ -211,16 +211,17 @@ pub fn ball_pivot_with_centers_2d(
         // the last ball contact point is the one we choose to pivot on
         let mut best: Option<PivotPoint> = None;
         for (ni, _) in neighbors.iter() {
-            // We want to skip the neighbor two elements back, because that's the one we just came
-            // from, and it will otherwise have a perfect intersection at 0 degrees.
-            if results.len() >= 2 && *ni == results[results.len() - 2] {
-                continue;
-            }
+            // The ball is still in contact with the neighbor two elements back, because that's the
+            // one we just came from. That contact shows up as an intersection at 0 degrees, or,
+            // through rounding, just short of a full turn, and must be skipped. The other
+            // intersection with that neighbor is a legitimate pivot: it is where the ball arrives
+            // after rolling around the end of a chain of points.
+            let came_from = results.len() >= 2 && *ni == results[results.len() - 2];
 
             for pi in circles[working_index].intersections_with(&circles[*ni]) {
                 let di = pi - points[working_index];
                 let angle = directed_angle(&direction, &di, pivot_direction);
-                if angle < 1e-6 {
+                if angle < 1e-6 || (came_from && angle > TAU - 1e-6) {
                     continue;
                 }
 
